@@ -297,18 +297,19 @@ class ExpressionParser(ParserBase):
         Utility method to multiply :data:`left_exp` with the remainder :data:`right_exp` of a
         chain of multiplications and divisions, which associates from left to right.
         """
-        def _has_division(expr):
-            # pylint: disable=unidiomatic-typecheck
-            if type(expr) is pmbl.Quotient:
-                return True
-            return type(expr) is pmbl.Product and _has_division(expr.children[0])
+        # Only plain products and quotients take part, parenthesised ones are operands
+        products = (pmbl.Product, sym.Product)
+        quotients = (pmbl.Quotient, sym.Quotient)
 
-        # pylint: disable=unidiomatic-typecheck
-        if type(right_exp) is pmbl.Quotient:
+        def _has_division(expr):
+            if type(expr) in quotients:
+                return True
+            return type(expr) in products and _has_division(expr.children[0])
+
+        if type(right_exp) in quotients:
             return pmbl.Quotient(numerator=cls._join_product(left_exp, right_exp.numerator),
                                  denominator=right_exp.denominator)
-        # pylint: disable=unidiomatic-typecheck
-        if type(right_exp) is pmbl.Product:
+        if type(right_exp) in products:
             if _has_division(right_exp.children[0]):
                 return pmbl.Product((cls._join_product(left_exp, right_exp.children[0]), right_exp.children[1]))
             return pmbl.Product((sym.Product((left_exp, right_exp.children[0])), right_exp.children[1]))
